@@ -109,6 +109,7 @@ class State:
         self.scripts = scripts
         self.cancelled: str | None = None
         self.tasks: dict[str, asyncio.Task[Any]] = {}
+        self.tx_count: dict[int, int] = {}
 
     def peer_receive(self, data: bytes) -> None:
         if data[0] == 0x3E:
@@ -117,7 +118,10 @@ class State:
             return
         if data[0] == 0x22:
             did = int.from_bytes(data[1:3], "big")
-            for ch in self.scripts.get(did, "R"):
+            parts = self.scripts.get(did, "R").split("|")
+            k = self.tx_count.get(did, 0)
+            self.tx_count[did] = k + 1
+            for ch in parts[min(k, len(parts) - 1)]:
                 if ch == "R":
                     self.out.append(bytes([0x62]) + data[1:3] + bytes([did & 0xFF]))
                 elif ch == "P":
@@ -169,6 +173,7 @@ def make_scenario(item: tuple[Any, ...], box: dict[str, Any]) -> Any:
 
     def scenario(run: Run) -> None:
         scripts = {did: sc for _, *reqs in callers for did, sc in reqs}
+        scripts[0x5005] = "R"
         st = State(scripts)
         box["st"] = st
         tr = G["TagTransport"](st)
@@ -199,6 +204,13 @@ def make_scenario(item: tuple[Any, ...], box: dict[str, Any]) -> Any:
             finally:
                 st.log.append(("end", "recon", 0))
 
+        async def stopper() -> None:
+            # what wait_for_ecu() does around its ping loop: stop the worker, talk to the ECU, start it again
+            await asyncio.sleep(0)
+            if ecu.tester_present_task is not None:
+                await ecu.stop_cyclic_tester_present()
+            await caller("S", [(0x5005, "R")])
+
         async def boot() -> None:
             if worker:
                 await ecu.start_cyclic_tester_present(0.3)
@@ -207,7 +219,9 @@ def make_scenario(item: tuple[Any, ...], box: dict[str, Any]) -> Any:
             for i in order:
                 name, *reqs = callers[i]
                 st.tasks[name] = asyncio.get_running_loop().create_task(caller(name, reqs), name=name)
-            if reconnecter:
+            if reconnecter == "stop":
+                st.tasks["S"] = asyncio.get_running_loop().create_task(stopper(), name="S")
+            elif reconnecter:
                 st.tasks["recon"] = asyncio.get_running_loop().create_task(recon(), name="recon")
 
         boot_task = run.loop.create_task(boot(), name="boot")
@@ -246,6 +260,7 @@ def judge(item: tuple[Any, ...], obs: dict[str, Any], choices: list[int], res: R
     rp = {"item": item, "choices": choices}
     log = obs["log"]
     owner_did = {did: name for name, *reqs in callers for did, _ in reqs}
+    owner_did[0x5005] = "S"
     if obs["status"] != "done":
         sig = f"C05|no-progress|{obs['status']}|cancelled={'yes' if obs['cancelled'] else 'no'}"
         res.violate(sig, f"callers {obs['unfinished']} never completed ({obs['status']} at t={obs['t']}), cancelled={obs['cancelled']}", rp)
@@ -403,6 +418,18 @@ def items(tier: str, seed: int) -> list[Any]:
         for order in orders:
             for worker in (False, True):
                 out.append(((callers, order, worker, False, 0, True), bound, cap))
+    # a task that stops the tester-present worker (as wait_for_ecu does) while another caller is mid-exchange, then issues a request
+    for sa in ("PR", "R", "-", "PPR"):
+        for sb in ("R", "PR"):
+            callers = (("A", (0x1001, sa)), ("B", (0x2002, sb)))
+            out.append(((callers, (0, 1), True, "stop", 0, True), bound, cap))
+            out.append(((callers, (1, 0), True, "stop", 1, False), bound, cap))
+    # connection loss / silence inside a pending phase with a retry left (second transmission is answered)
+    for sa in ("PC|R", "P-|R", "C|PR", "PPC|PR"):
+        for sb in ("R", "PR", "C|R"):
+            callers = (("A", (0x1001, sa)), ("B", (0x2002, sb)))
+            for worker in (False, True):
+                out.append(((callers, (0, 1), worker, False, 1, True), bound, cap))
     # four and five callers (bound 1; thorough: more script mixes and bound 2 on the four-caller case)
     many = [("R", "PR", "-", "R"), ("PR", "R", "R", "C")] if quick else [("R", "PR", "-", "R"), ("PR", "R", "R", "C"), ("-", "-", "R", "PR"), ("R", "R", "R", "R")]
     for sc in many:
